@@ -140,23 +140,20 @@ pub fn mod_switch_2n(n: usize, res: &mut [i64], lwe: &LWE<&[u8]>, rot_dir: LookU
 
     res.copy_from_slice(lwe.data().at(0, 0));
 
-    match rot_dir {
-        LookUpTableRotationDirection::Left => {
-            res.iter_mut().for_each(|x| *x = -*x);
-        }
-        LookUpTableRotationDirection::Right => {}
-    }
+    // Number of bits of the switched coefficients: log2(n) (the extra -1 maps to [-n/2, n/2) instead of [0, n)).
+    let bits: usize = log2n - 1;
 
-    if base2k > log2n {
-        let diff: usize = base2k - (log2n - 1); // additional -1 because we map to [-N/2, N/2) instead of [0, N)
+    if base2k > bits {
+        let diff: usize = base2k - bits;
         res.iter_mut().for_each(|x| {
             *x = div_round_by_pow2(x, diff);
         })
     } else {
-        let rem: usize = base2k - (log2n % base2k);
-        let size: usize = log2n.div_ceil(base2k);
+        // Concatenates the leading limbs down to `bits` bits (the last one is cut).
+        let size: usize = bits.div_ceil(base2k);
+        let rem: usize = size * base2k - bits;
         (1..size).for_each(|i| {
-            if i == size - 1 && rem != base2k {
+            if i == size - 1 && rem != 0 {
                 let k_rem: usize = base2k - rem;
                 izip!(lwe.data().at(0, i).iter(), res.iter_mut()).for_each(|(x, y)| {
                     *y = (*y << k_rem) + (x >> rem);
@@ -167,6 +164,13 @@ pub fn mod_switch_2n(n: usize, res: &mut [i64], lwe: &LWE<&[u8]>, rot_dir: LookU
                 });
             }
         })
+    }
+
+    match rot_dir {
+        LookUpTableRotationDirection::Left => {
+            res.iter_mut().for_each(|x| *x = -*x);
+        }
+        LookUpTableRotationDirection::Right => {}
     }
 }
 
